@@ -27,6 +27,7 @@ import (
 	"flag"
 	"fmt"
 	"os"
+	"runtime/debug"
 	"sort"
 	"strconv"
 	"strings"
@@ -48,8 +49,13 @@ var out *bufio.Writer
 var dist = map[string]int{}
 var seen = map[string]struct{}{}
 
+var verbose bool
+
 func panicCat(e interface{}) string {
 	m := fmt.Sprint(e)
+	if verbose {
+		fmt.Fprintf(os.Stderr, "panic: %s\n%s\n", m, debug.Stack())
+	}
 	switch {
 	case strings.Contains(m, "index out of range"):
 		return "panic|index"
@@ -542,6 +548,7 @@ func main() {
 	tier := flag.String("tier", "quick", "quick|thorough")
 	outPath := flag.String("out", "", "output file")
 	replay := flag.String("replay", "", "replay one case: S:<hex> | BW:<addr data> | BK:<addr data>:<period> | BL:<addr data>:<period> | BB:<hash hex>:<target hex>")
+	flag.BoolVar(&verbose, "v", false, "print every recovered panic with its stack on stderr")
 	flag.Parse()
 	tmp, _ := os.MkdirTemp("", "c16-")
 	defer os.RemoveAll(tmp)
